@@ -1,7 +1,7 @@
 --------------------------- MODULE StyleArgsCore ---------------------------
 (***************************************************************************)
 (* X10: validation and normalisation of the STYLE-SPECIFIC ARGUMENTS of     *)
-(* the old image API - what `draw with style keywords`, the `+style` part of a format  *)
+(* the old image API - what draw(style keywords), the `+style` part of a format *)
 (* specifier and `set_render_method()` accept, for BlockImage, KittyImage   *)
 (* and ITerm2Image.  Functional core (no variables).                        *)
 (*                                                                         *)
@@ -14,6 +14,7 @@
 (*                                                                         *)
 (*   kitty   method   None | str   a render method of the class (any case)  *)
 (*                                 default None = effective method          *)
+(*                                 (None itself is REFUSED: deviation D5)   *)
 (*           z_index  int          signed 32-bit range excluding -(2**31)   *)
 (*                                 default 0                                *)
 (*           mix      bool         default False                            *)
@@ -103,6 +104,13 @@ RejectedDrawOutputs == {"nothing", "epilogue"}
 \*     wins: any of them is accepted (CallVerdicts is a set).
 \* D4  _check_style_args() returns the render method as spelled by the caller ("WHOLE"), not
 \*     canonicalised: values are compared case-insensitively (SameAs).
+\* D5  The docstrings say "method (None | str) ... None -> the current effective render method ...
+\*     default -> None", but the code AND the repository's own test-suite (TestStyleArgs.test_method
+\*     of tests/test_image/test_kitty.py and test_iterm2.py) refuse None with TypeError.  The way to
+\*     get the effective render method is to OMIT `method`.  A documentation-vs-tests contradiction
+\*     that cannot be repaired without breaking the suite: modelled as it behaves, not reported.
+\*     (FALSE = the letter of the docstring: None accepted and dropped as the default.)
+MethodNoneRefused == TRUE
 
 (* ---- the documented table ----------------------------------------------- *)
 DefaultOf(k) == CASE k = "method" -> NoneV
@@ -113,7 +121,7 @@ DefaultOf(k) == CASE k = "method" -> NoneV
 
 IntLike(v) == v.t = "int" \/ (BoolIsInt /\ v.t = "bool")
 
-TypeOKDoc(k, v) == CASE k = "method" -> v.t \in {"none", "str"}      \* "(None | str)"
+TypeOKDoc(k, v) == CASE k = "method" -> v.t = "str" \/ (v.t = "none" /\ ~MethodNoneRefused)  \* "(None | str)", D5
                      [] k = "z_index" -> IntLike(v)
                      [] k = "mix" -> v.t = "bool"
                      [] k = "compress" -> IntLike(v)
